@@ -139,6 +139,14 @@ struct NodeTable {
   json::Array Nodes;
   std::map<const Stmt *, int> IdOf;
   std::map<const Decl *, int> DeclIdOf;
+  std::map<const Decl *, int> DeclSerial;   // stable per-scope serial of a declaration (distinguishes shadowed names)
+  int declSerial(const Decl *D) {
+    auto it = DeclSerial.find(D);
+    if (it != DeclSerial.end()) return it->second;
+    int id = (int)DeclSerial.size() + 1;
+    DeclSerial[D] = id;
+    return id;
+  }
   NodeTable(Emitter &e) : E(e) {}
 
   static const Stmt *strip(const Stmt *S) {
@@ -191,6 +199,7 @@ struct NodeTable {
     json::Object o;
     o["k"] = "vardecl";
     o["n"] = VD->getName().str();
+    o["di"] = declSerial(VD);
     o["t"] = E.typeId(VD->getType());
     o["ln"] = (int64_t)E.lineOf(VD->getLocation());
     int m = E.macroStack(VD->getLocation());
@@ -255,6 +264,7 @@ struct NodeTable {
       o["k"] = "ref";
       const ValueDecl *VD = D->getDecl();
       o["n"] = VD->getName().str();
+      if (isa<VarDecl>(VD)) o["di"] = declSerial(VD);
       if (isa<EnumConstantDecl>(VD)) o["d"] = "enum";
       else if (isa<FunctionDecl>(VD)) o["d"] = "fn";
       else if (isa<ParmVarDecl>(VD)) o["d"] = "parm";
